@@ -120,7 +120,9 @@ def lex_multichar_comments(
 
     if ("/*", "*/") in comments:
         if char == "*":
-            if prev_char == "/":
+            if prev_char == "/" and preserve["state"] != Preserve.COMMENT:
+                # Only the beginning of a comment if we are not in one
+                # already, otherwise the comment "/*/*/" never ends.
                 return lexeme + "/*", dict(state=Preserve.COMMENT, end="*/")
             elif next_char == "/":
                 return lexeme + "*/", dict(state=Preserve.FALSE, end=None)
